@@ -2,10 +2,25 @@ From GF Require Import Base Alphabet SymbolsDef FastaModel CodonModel Harness.
 Open Scope N_scope.
 (* op: 0 translate lenient, 1 translate strict, 2 complement, 3 revcomp, 4 encoded complement (input = text,
    encoded with the soft/hard table by the harness; output = encoded bytes), 5 encoded revcomp *)
+(* The property quantifies over codons of the 15 IUPAC codes only; on any other byte ('?', '-', lower case, 'X', ...)
+   the statement demands nothing, so the expectation there is the model's own output (a difference is then a broken
+   correspondence, not a spec violation). *)
+Definition in15 (c : N) : bool := existsb (N.eqb c) iupac15.
+Fixpoint expect_codons (strict : bool) (cs : list (N * N * N)) : res (list N) :=
+  match cs with
+  | [] => Ok []
+  | (a, b, c) :: t =>
+      match (if in15 a && in15 b && in15 c then option_map (fun v => [v]) (unique_product a b c) else codon_aa a b c) with
+      | Some v => bind (expect_codons strict t) (fun r => Ok (v ++ r))
+      | None => if strict then Err Other else bind (expect_codons strict t) (fun r => Ok (88 :: r))
+      end
+  end.
+Definition expect_translate (strict : bool) (x : list N) : res (list N) :=
+  match codons (length x) x with None => Err Other | Some cs => expect_codons strict cs end.
 Definition run_C17 (op : N) (h : bool) (x : list N) : res (list N) * res (list N) :=
   match op with
-  | 0 => (translate false x, spec_translate false x)
-  | 1 => (translate true x, spec_translate true x)
+  | 0 => (translate false x, expect_translate false x)
+  | 1 => (translate true x, expect_translate true x)
   | 2 => (Ok (complement x), Ok (complement x))
   | 3 => (Ok (revcomp x), Ok (revcomp x))
   | 4 => (Ok (ecomplement (map (enc h) x)), Ok (map (enc h) (complement x)))
